@@ -36,6 +36,31 @@ def handle (op : String) (args : List String) : Option String :=
     let ht ← kvInt args "ht"
     let h ← kvBytes args "h"
     some ("ok " ++ hexOrDash (signBody ctx ht h))
+  | "hashed" => do
+    -- NewSignatureWithHashedData with `sign := id`: the answer names the body to be signed
+    let ctx ← kvBytes args "ctx"
+    let ht ← kvInt args "ht"
+    let hd ← kvBytes args "hd"
+    let incl ← kvNat args "incl"
+    let pub ← kvBytes args "pub"
+    match newSignatureWithHashedData id pub ctx ht hd (incl = 1) with
+    | none => some "err"
+    | some s => some s!"ok ht={s.hashType} spk={hexOrDash s.pubKey} body={hexOrDash s.sigData}"
+  | "newsig" => do
+    -- NewSignature(ctx, sk, ht, data, incl): the digest is asked from the harness
+    let ctx ← kvBytes args "ctx"
+    let ht ← kvInt args "ht"
+    let data ← kvBytes args "data"
+    let incl ← kvNat args "incl"
+    let pub ← kvBytes args "pub"
+    if !hashTypeSupported ht then some "err" else
+    match kvBytes args "hash" with
+    | none => some s!"hash ht={ht} data={hexOrDash data}"
+    | some h =>
+      let sum : SumFn := fun t d => if t = ht ∧ d = data then some h else none
+      match newSignatureIncl id pub sum ctx ht data (incl = 1) with
+      | none => some "err"
+      | some s => some s!"ok ht={s.hashType} spk={hexOrDash s.pubKey} body={hexOrDash s.sigData}"
   | "validate" => do
     let pk ← kvBytes args "pk"
     let ht ← kvInt args "ht"
